@@ -66,6 +66,7 @@ fn check_verdict(spec: &ExchangeSpec, s: &mut Sched, st: &mut Stats) -> Result<(
                             payload: if nobody2 { vec![] } else { b"ok".to_vec() },
                             close_delimited: false,
                         },
+                        prep: 0,
                     };
                     let stream2 = spec2.stream();
                     match run_exchange(&spec2, Some(nf), &stream2, &mut Sched::canonical()).map_err(|e| format!("second hop: {}", e))? {
@@ -216,6 +217,7 @@ fn exec_product(t: &mut Tape, st: &mut Stats) -> Result<(), String> {
         await_mode,
         server_pre,
         resp: RespSpec { head: RespHead { v11: resp_v11, status, reason: Some(b"R".to_vec()), fields }, body_wire, payload, close_delimited },
+        prep: 0,
     };
     st.describe(|| spec_json(&spec));
     check_verdict(&spec, &mut Sched::canonical(), st)
